@@ -18,14 +18,19 @@ vars == <<picked>>
 
 \* "slashed": like base, but the validator was slashed while S is unbonding from it, S holds liquid tokens
 \* (a registered coin/token pair) and an unregistered denomination
-States  == {"base", "wdOther", "noDeleg", "operator", "slashed"}
+\* "operatorWd": a validator operator whose withdraw address is another account; "vesting": S is a clawback vesting
+\* account (unvested coins on top of its free balance)
+States  == {"base", "wdOther", "noDeleg", "operator", "slashed", "operatorWd", "vesting"}
 ValsC   == {"V1", "V2", "unknown", "badbech32"}
 SpendAmts == {"0", "1", "small", "eqDeleg", "gtDeleg", "eqBal", "gtBal", "2^255", "max"}
 
 Case(st, m, v, a, h) == [state |-> st, m |-> m, val |-> v, amt |-> a, height |-> h, to |-> "T"]
 
 Cases ==
-    {Case(st, m, v, a, "ok") : st \in States \ {"operator"}, m \in {"delegate", "undelegate", "redelegate"}, v \in ValsC, a \in SpendAmts}
+    {Case(st, m, v, a, "ok") : st \in States \ {"operator", "operatorWd", "vesting"}, m \in {"delegate", "undelegate", "redelegate"}, v \in ValsC, a \in SpendAmts}
+    \* a vesting account may bond its free and vested coins only: amounts around that bound, by delegation and by creating a validator
+    \cup {Case("vesting", m, "V1", a, "ok") : m \in {"delegate", "createValidator"}, a \in {"1", "small", "eqFree", "gtFree", "eqBal", "gtBal"}}
+    \cup {Case(st, "createValidator", "V1", a, "ok") : st \in {"base", "noDeleg", "operator"}, a \in {"0", "1", "small", "eqBal", "gtBal", "2^255"}}
     \cup {Case(st, "cancelUnbonding", v, a, h) : st \in {"base", "wdOther", "slashed"}, v \in {"V1", "V2", "unknown"},
                                                   a \in {"0", "1", "ubd", "small", "2^255"}, h \in {"ok", "wrong"}}
     \cup {Case(st, "withdrawRewards", v, "0", "ok") : st \in States, v \in ValsC}
@@ -41,7 +46,7 @@ Spec == Init /\ [][Next]_vars
 
 \* sanity of the case space itself (checked exhaustively): every method of the statement occurs
 \* with a valid and an invalid validator, with amounts below, at and above the relevant bound
-Methods == {"delegate", "undelegate", "redelegate", "cancelUnbonding", "withdrawRewards", "claimRewards", "setWithdrawAddress", "withdrawCommission", "ibcTransfer"}
+Methods == {"delegate", "undelegate", "redelegate", "cancelUnbonding", "withdrawRewards", "claimRewards", "setWithdrawAddress", "withdrawCommission", "ibcTransfer", "createValidator"}
 ASSUME \A m \in Methods : \E c \in Cases : c.m = m
 ASSUME \A m \in {"delegate", "undelegate", "redelegate"} : \A a \in SpendAmts, v \in ValsC : \E c \in Cases : c.m = m /\ c.amt = a /\ c.val = v
 
